@@ -456,14 +456,14 @@ func (v *VSpec) slen() int {
 // mutateChildInIteration appends a few elements to a nested container obtained from a mutable iterator
 // (enough to make a small child outgrow its slot now and then).
 func (w *World) mutateChildInIteration(in atree.Value, ch *MCont, salt int) *Violation {
-	cnt := 1 + salt%3
+	cnt := 1 + salt%6 // enough to outgrow the slot, or to split the parent slab under the cursor, now and then
 	switch x := in.(type) {
 	case *atree.Array:
 		if ch.IsMap {
 			return w.viol("iter.seq", "child #%d: iterator handed out an array for a map", ch.CID)
 		}
 		for j := 0; j < cnt; j++ {
-			s := strFor(900000+salt*7+j, 10+salt%40)
+			s := strFor(900000+salt*7+j, 10+salt%80)
 			if err := x.Append(Str{s}); err != nil {
 				return w.viol("iter.mutation", "appending to child #%d obtained from a mutable iterator failed: %v", ch.CID, err)
 			}
@@ -476,7 +476,7 @@ func (w *World) mutateChildInIteration(in atree.Value, ch *MCont, salt int) *Vio
 		}
 		for j := 0; j < cnt; j++ {
 			km := MU64(uint64(800000 + salt*7 + j))
-			s := strFor(900000+salt*7+j, 10+salt%40)
+			s := strFor(900000+salt*7+j, 10+salt%80)
 			old, err := x.Set(w.cmp, w.hip, w.valueOfKey(km), Str{s})
 			if err != nil {
 				return w.viol("iter.mutation", "setting into child #%d obtained from a mutable iterator failed: %v", ch.CID, err)
